@@ -281,6 +281,9 @@ class Exec:
     def st_ForStmt(self, st, env):
         return self.model.for_loop(self, st, env)
 
+    def st_WhileStmt(self, st, env):
+        return self.model.for_loop(self, st, env)
+
     def st_CXXForRangeStmt(self, st, env):
         return self.model.range_loop(self, st, env)
 
@@ -397,7 +400,13 @@ class Exec:
         if op == '-':
             return -v
         if op in ('++', '--'):
-            raise CheckerError('increment outside a loop header')
+            # scalar pre/post increment as a store through the model (frame obligations see it)
+            new = v + 1 if op == '++' else v - 1
+            ty = e['type']['qualType']
+            if 'unsigned' in ty or ty == 'category_id':
+                self.oblige('nowrap', z3.And(new >= 0, new < U32), e, f'unsigned {op} does not wrap')
+            self.model.assign(self, strip_casts(e['inner'][0]), new, env, e)
+            return v if e.get('isPostfix') else new
         raise CheckerError(f'unary operator {op}')
 
     def ev_BinaryOperator(self, e, env):
